@@ -342,3 +342,44 @@ fn transition_composition_bounded() {
     }
     println!("NB-RESULT name=transition_composition_bounded cases={cases}");
 }
+
+// ------------------------------------------------------------------------------------------------
+// Assertion constructors (C16, air/src/air/assertions/mod.rs): periodic / sequence accept exactly the documented shapes -
+// stride a power of two >= 2, first step STRICTLY below the stride, a non-empty power-of-two number of values - and refuse
+// (panic, as documented) everything else; an accepted assertion names exactly the steps first_step + k * stride below the
+// trace length. Bound: strides 0..=70, first steps 0..=70, 0..=9 values.
+#[test]
+fn assertion_constructors_bounded() {
+    std::panic::set_hook(Box::new(|_| {}));
+    let mut cases = 0u64;
+    for stride in 0..=70usize {
+        for first in 0..=70usize {
+            let shape_ok = stride.is_power_of_two() && stride >= 2 && first < stride;
+            cases += 1;
+            let got = catch_unwind(|| Assertion::<BaseElement>::periodic(0, first, stride, BaseElement::ONE)).is_ok();
+            if got != shape_ok {
+                fail(format!("Assertion::periodic(first step {first}, stride {stride}) is {} but the documented rule says {}", if got { "accepted" } else { "refused" }, if shape_ok { "valid" } else { "invalid" }));
+            }
+            for num_values in 0..=9usize {
+                cases += 1;
+                let want = shape_ok && num_values >= 1 && num_values.is_power_of_two();
+                let got = catch_unwind(|| Assertion::<BaseElement>::sequence(0, first, stride, vec![BaseElement::ONE; num_values]));
+                if got.is_ok() != want {
+                    fail(format!("Assertion::sequence(first step {first}, stride {stride}, {num_values} values) is {} but the documented rule says {}", if got.is_ok() { "accepted" } else { "refused" }, if want { "valid" } else { "invalid" }));
+                }
+                if let Ok(a) = got {
+                    // the steps it names on the trace it fits: all inside the trace
+                    let n = if num_values == 1 { 128 } else { stride * num_values };
+                    if a.validate_trace_length(n).is_ok() {
+                        let steps = a.get_num_steps(n);
+                        let s = if num_values == 1 { 1 } else { stride };
+                        if first + (steps - 1) * s >= n {
+                            fail(format!("Assertion::sequence(first step {first}, stride {stride}, {num_values} values) names step {} on a trace of {n} steps", first + (steps - 1) * s));
+                        }
+                    }
+                }
+            }
+        }
+    }
+    println!("NB-RESULT name=assertion_constructors_bounded cases={cases}");
+}
